@@ -119,6 +119,20 @@ Tenth round (j) - cross-talk / wrong-key changes that need several parties at on
 * **C15-j** (`host_id` as a class attribute): an emit published by the *other* host must be applied, not taken for an own echo (also reported by C07).
 * **C19-j** (a class-level `input_buffer`): two more simple clients in the same process, each sent its own events.
 * **C20-j** (the pending mark checked per namespace, not per client): the other client of the namespace is in the middle of being disconnected (its handler takes a while) when the concurrent terminations start. (Disconnecting two *different* clients concurrently raises `KeyError` in `basic_disconnect` on the unchanged tree - thread-unsafety between clients, outside C20's quantifier; observed, not claimed.)
+
+Eleventh round (k) - re-entrancy: the breakage shows only when the application calls back into the library from inside one of its own handlers or callbacks. 13 of 18 missed at first - the generated handlers had been passive (return, raise, pause) almost everywhere - all reported after strengthening:
+
+* **C02-k** (the client drops the callbacks a connect handler registered): the client's connect handler emits with a callback at once; the server's answer must reach it.
+* **C03-k** (rooms to leave recorded before the disconnect handler runs): the application's own handlers use the rooms - the connect handler enters 'lobby', the disconnect handler "moves" the client into another room on its way out.
+* **C04-k / C20-k** (the pending-disconnect list is rebuilt without its head): a disconnect handler that disconnects another client of the namespace ("the host leaves, kick the guests") while a second cause ends the host: in C04's races (asyncio, coroutine handlers) and, in C20, with the bystander as the guest.
+* **C07-k** (a message-queue manager drops a disconnect request while any local disconnect is in progress): a disconnect handler disconnects a client that lives on another host.
+* **C08-k / C10-k** (client state cleared before instead of after the disconnect handlers): disconnect handlers that emit - with a callback (C08: nothing may survive into the next connection) or without (C10: the reconnection must still start).
+* **C11-k** (clean-up skipped when the personal room is gone): the application's "leave every room rooms() lists" tidy-up, which includes the client's own room.
+* **C12-k** (callback entry removed after the callback has run): an emit with a callback to the offender whose callback relays the answer to a bystander and takes a moment; the offender replays its ACK on a second channel (python-socketio has engine.io deliver one client's messages one after the other, so only an HTTP POST to the session is handled concurrently).
+* **C13-k** (resolved route cached and written back after the handler): a catch-all that registers the real handler from inside itself the first time it sees an event.
+* **C15-k** (a non-re-entrant lock around the listener's emit and disconnect handling): a remotely requested disconnect whose handler broadcasts "user left" from inside the listener.
+* **C16-k** (the transport's sessions cleared after the first namespace's handler): the disconnect handlers read the session of the client that is leaving.
+* **C19-k** (connect() creates fresh event objects): the application's consumer is started before connect() is called on the same object.
 """
 
 
